@@ -96,6 +96,16 @@ func c03Entry(item string, i int, nameClass string) model.Entry {
 		return model.Entry{Src: "links/*", Dst: base + name}
 	case "sizes-tree":
 		return model.Entry{Src: "sizes", Dst: base + name, Type: "tree"}
+	case "odd-tree":
+		return model.Entry{Src: "oddnames", Dst: base + name, Type: "tree"}
+	case "odd-glob":
+		return model.Entry{Src: "oddnames/*", Dst: base + name}
+	case "hardlinks-tree":
+		return model.Entry{Src: "hardlinks", Dst: base + name, Type: "tree"}
+	case "hardlink-a":
+		return model.Entry{Src: "hardlinks/first.bin", Dst: base + name}
+	case "hardlink-b":
+		return model.Entry{Src: "hardlinks/second.bin", Dst: base + name}
 	case "huge-noise":
 		return model.Entry{Src: "huge/noise.bin", Dst: base + name}
 	case "huge-zeros":
@@ -229,6 +239,18 @@ func init() {
 						if !yield(C03Case{Shape: []string{it, "dir", "f1"}, Setting: s}) {
 							return
 						}
+					}
+				}
+			}
+			// names that are not plain text (the digest lists and size sums name and count every file); two names of one
+			// file on the build host (two files in the package)
+			for _, s := range sets {
+				if s.Only != "" && !env.Thorough() {
+					continue
+				}
+				for _, sh := range [][]string{{"odd-tree"}, {"odd-glob", "f1"}, {"hardlinks-tree"}, {"hardlink-a", "hardlink-b", "f1"}, {"hardlink-b", "hardlink-a"}} {
+					if !yield(C03Case{Shape: sh, Setting: s}) {
+						return
 					}
 				}
 			}
